@@ -205,7 +205,10 @@ int main ()
     O.put (ul2-ul); O.put (ur2-ur); O.put (bl2-bl); O.put (br2-br); };
   OP("o.c13.inv") { unsigned n=A.nat();
 #define INVCASE(N) if (n == N) { auto m=A.mat<N,N>(); Matrix<N,N,Rat> I; matrix_identity (I); Matrix<N,N,Rat> x = inv(m); \
-      Matrix<N,N,Rat> l = x*m; Matrix<N,N,Rat> r = m*x; O.put (Matrix<N,N,Rat>(l-I)); O.put (Matrix<N,N,Rat>(r-I)); }
+      Matrix<N,N,Rat> l = x*m; Matrix<N,N,Rat> r = m*x; O.put (Matrix<N,N,Rat>(l-I)); O.put (Matrix<N,N,Rat>(r-I)); \
+      /* the inverse GaussJordan leaves in place of its first argument (after the column unscrambling) */ \
+      Matrix<N,N,Rat> a = m; Matrix<N,N,Rat> b = I; GaussJordan (a, b); Matrix<N,N,Rat> la = a*m; Matrix<N,N,Rat> ra = m*a; \
+      O.put (Matrix<N,N,Rat>(la-I)); O.put (Matrix<N,N,Rat>(ra-I)); O.put (Matrix<N,N,Rat>(a-b)); }
     INVCASE(1) INVCASE(2) INVCASE(3) INVCASE(4) INVCASE(5) INVCASE(6) };
   OP("o.c13.cinv") { unsigned n=A.nat();
 #define CINVCASE(N) if (n == N) { auto m=A.cmat<N,N>(); Matrix<N,N,CRat> x = inv(m); Matrix<N,N,CRat> l = x*m; Matrix<N,N,CRat> r = m*x; \
@@ -232,6 +235,18 @@ int main ()
       Matrix<3,3,Rat> I; matrix_identity (I); Matrix<3,3,Rat> mm = m*transpose(m); O.put (Matrix<3,3,Rat>(mm-I));
       Rat det = m[0]*cross(m[1],m[2]); O.put (Rat(det-1));
       auto x=A.vec<3>(); O.put (Vector<3,Rat>(b.get_out(b.get_in(x)) - x)); O.put (Vector<3,Rat>(b.get_in(b.get_out(x)) - x)); } };
+
+  // the state after a sequence of settings on one object is the state of a fresh object given the last setting alone,
+  // and the getters report the angles of that setting
+  OP("o.c14.history") { Basis<double> b; unsigned n=A.nat(); Basis<double> f;
+    for (unsigned i=0;i<n;i++) {
+      if (i+1 == n) { Args L = A; do_basis_op (f, L); Args M = A; std::string k = M.next();
+        if (k == "ell") { double o = hexdouble(M.next()); double e = hexdouble(M.next()); do_basis_op (b, A);
+          O.put (Rat(Rat(b.get_orientation()) - Rat(o))); O.put (Rat(Rat(b.get_ellipticity()) - Rat(e))); continue; } }
+      do_basis_op (b, A); }
+    O.put (Rat((int) b.get_basis() - (int) f.get_basis())); O.put (Rat(Rat(b.get_orientation()) - Rat(f.get_orientation()))); O.put (Rat(Rat(b.get_ellipticity()) - Rat(f.get_ellipticity())));
+    for (unsigned i=0;i<3;i++) O.put (Vector<3,Rat>(Vector<3,Rat>(b.get_basis_vector(i)) - Vector<3,Rat>(f.get_basis_vector(i))));
+    auto x=A.vec<3>(); O.put (Vector<3,Rat>(b.get_in(x) - f.get_in(x))); O.put (Vector<3,Rat>(b.get_out(x) - f.get_out(x))); };
 
   return run_stream (ops);
 }
